@@ -630,7 +630,9 @@ def corr_case(ck, case, viol):
     except Exception as ex:
         hnd = f'{type(ex).__name__}'
     ck.hist[f'hyp:hnd:{hnd}'] += 1
-    if not case.get('malformed') and 'load=true unload=true' not in hnd:
+    # `ports=`: hypothesis `hports` (File.portsOK: scan-in / scan-out port names of the chains pairwise different; audit 2 A-C18-1 — the
+    # code keys its chain tables by port, the model walks the chain list)
+    if not case.get('malformed') and ('load=true unload=true' not in hnd or 'ports=true' not in hnd):
         # a well-formed generated case puts every cell in at most one chain position and every port once into a group: inside the domain
         ck.broken_tie('hypothesis hnd of the positional theorems on a well-formed case', hnd, inp=case)
     if not bad:
